@@ -23,6 +23,7 @@ The abstract base class for all scattering objects
 '''
 
 from copy import copy, deepcopy
+from math import isnan
 from numbers import Real
 
 import numpy as np
@@ -227,7 +228,10 @@ class Scatterer(HoloPyObject):
 
 class CenteredScatterer(Scatterer):
     def __init__(self, center=None):
-        bad = center is not None and (np.isscalar(center) or len(center) != 3)
+        # x, y, z are center[0], center[1], center[2]: an ordered triple
+        bad = center is not None and (
+            np.isscalar(center) or not hasattr(center, '__getitem__')
+            or len(center) != 3)
         if center is not None and not bad:
             # three numbers, not three lists of numbers
             bad = not all(_is_coordinate(c) for c in center)
@@ -245,8 +249,9 @@ def _is_coordinate(value):
         # priors or per-channel values are not checked further
         return True
     if isinstance(value, np.ndarray):
-        return value.ndim == 0 and value.dtype.kind in 'biuf'
-    return isinstance(value, Real)
+        return (value.ndim == 0 and value.dtype.kind in 'biuf'
+                and not isnan(value))
+    return isinstance(value, Real) and not isnan(value)
 
 
 def find_bounds(indicator):
